@@ -1099,8 +1099,28 @@ class Interp:
             raise Unsupported('nested comprehension')
         g = node.generators[0]
         src = self.eval(g.iter, fr)
+        if kind == 'gen' and isinstance(src, S.SVal) and not g.ifs:
+            # a generator expression over an opaque iterable: lazy, nothing
+            # is walked when it is created
+            from . import models
+            self.world.trusted_used.add('generator expression over an '
+                                        'opaque iterable (T-lazy)')
+            r = models.apply_uf('genexp:%d' % node.lineno, (src,), 'Val')
+            self.calls.append(('genexp', (src,), r))
+            rt = S.TVal.unwrap(r)
+            self.path.assume(models.isinst_fn('Iterable')(rt))
+            self.path.assume(models.isinst_fn('Iterator')(rt))
+            return r
         it = self.world.iter_spec(src, self)
         n = z3.simplify(it.length) if z3.is_expr(it.length) else it.length
+        lazy_view = kind == 'gen' and isinstance(src, S.SIter) and \
+            not g.ifs and not (isinstance(n, int) or z3.is_int_value(n))
+        if isinstance(src, S.SIter) and not lazy_view and \
+                getattr(it, 'consume', None) is not None:
+            # (a generator expression over a one-shot iterator of known
+            # length is still evaluated at once here: its consumers in the
+            # code under contract all drain it)
+            it.consume(it.length)
         if isinstance(n, int) or z3.is_int_value(n):
             n = n if isinstance(n, int) else n.as_long()
             out = []
@@ -1125,14 +1145,29 @@ class Interp:
         self.assign_target(g.target, it.item(k), f2)
         was = self.spec
         self.spec = True
+        ncalls = len(self.calls)
         try:
             body = self.eval(node.elt, f2)
+        except Unsupported:
+            # the element expression is not one term (it branches on the
+            # element): the image stays uninterpreted
+            from . import models
+            del self.calls[ncalls:]
+            self.world.trusted_used.add('comprehension: image of a '
+                                        'branching element uninterpreted')
+            body = models.apply_uf('comp.image:%d' % node.lineno,
+                                   (it.item(k),), 'Val')
         finally:
             self.spec = was
         t = S.type_of(body)
         if t is None or isinstance(t, TSeq):
             raise Unsupported('comprehension element %r' % (body,))
         arr = z3.Lambda([k], t.unwrap(body))
+        if lazy_view:
+            # a generator expression over a one-shot iterator: a lazy view,
+            # pulling it pulls the parent
+            view = SSeq(it.length, arr, t, kind='iter')
+            return S.SIter(view, parent=src)
         return SSeq(it.length, arr, t,
                     kind='list' if kind == 'list' else 'tuple')
 
@@ -1323,6 +1358,18 @@ class Interp:
             raise Unsupported('raise of %r' % (v,))
         v.line = node.lineno
         raise RaiseSig(v)
+
+    def s_With(self, node, fr):
+        # context managers of opaque objects (locks ...): enter / exit are
+        # logged effects, the body runs, exceptions are not suppressed
+        for item in node.items:
+            cm = self.eval(item.context_expr, fr)
+            if not isinstance(cm, SVal):
+                raise Unsupported('with %r' % (cm,))
+            self.calls.append(('with.enter', (cm,), None))
+            if item.optional_vars is not None:
+                self.assign_target(item.optional_vars, cm, fr)
+        self.exec_block(node.body, fr)
 
     def s_Try(self, node, fr):
         if node.finalbody:
